@@ -192,8 +192,8 @@ def e2e_cases(ctx, rng, count):
     names = live_templates()
     out = []
     for i in range(count):
-        stream = ["bbb", "tears", "syn1", "syn2"][i % 4]
-        man = names[(i // 4) % len(names)]
+        stream = ["bbb", "tears", "syn1", "syn2", "syn3"][i % 5]
+        man = names[(i // 5) % len(names)]
         opts = {}
         for k, vals in OPTION_POOL:
             if rng.random() < .3:
